@@ -47,7 +47,7 @@ def class_state_fp():
                 out.append((T.__name__, name, tuple(sorted((getattr(k, "__name__", repr(k)), _fn_name(f)) for k, f in reg.items()))))
             elif not callable(v) and not name.startswith("__"):
                 out.append((T.__name__, name, repr(v)))
-    for T in (Parser.TreeBuilder, Parser.OFXTree, Aggregate):
+    for T in (Parser.TreeBuilder, Parser.OFXTree, Aggregate, header.OFXHeaderV1, header.OFXHeaderV2, header.OFXHeaderBase):
         for name, v in sorted(vars(T).items()):
             if not callable(v) and not isinstance(v, (classmethod, staticmethod, property)) and not name.startswith("__"):
                 out.append((T.__name__, name, repr(v)[:200]))
@@ -146,6 +146,25 @@ def h_parse(ctx, n):
     ctx.check("parsing does not modify class-level state of the library", class_state_fp() == fp_cls)
 
 
+def h_parse_v2(ctx, n):
+    """an OFXv2 file without an encoding attribute, parsed before and after a file that declares another encoding"""
+    body = "<OFX><A>" + ctx.str("d", n, [(0x21, 0x3B), (0x3D, 0x7E), (0xA1, 0xFF), (0x20AC, 0x20AC)]) + "</A></OFX>"
+    data = ('<?xml version="1.0" standalone="no"?>\r\n<?OFX OFXHEADER="200" VERSION="203" SECURITY="NONE" OLDFILEUID="NONE" NEWFILEUID="NONE"?>\r\n' + body).encode("utf_8")
+    other = b'<?xml version="1.0" encoding="ISO-8859-1"?>\r\n<?OFX OFXHEADER="200" VERSION="203" SECURITY="NONE" OLDFILEUID="NONE" NEWFILEUID="NONE"?>\r\n<OFX><A>\xe9</A></OFX>'
+    fp_cls = class_state_fp()
+    outs = []
+    for k in range(2):
+        hdr, msg = header.parse_header(make_source(data))
+        outs.append(msg)
+        if k == 0:
+            try:
+                header.parse_header(make_source(other))
+            except (UnicodeDecodeError, SyntaxError):
+                pass
+    ctx.check("the same OFXv2 bytes give the same text whatever was parsed in between", outs[0] == outs[1] and outs[0] == body)
+    ctx.check("parsing does not modify class-level state of the library", class_state_fp() == fp_cls)
+
+
 # ---------------------------------------------------------------- the one shared write: dispatch re-registration
 def h_dispatch(ctx):
     """DateTime.normalize_to_gmt re-registers _unconvert_datetime on the class-level dispatcher, bound to whichever
@@ -168,7 +187,7 @@ def h_dispatch(ctx):
     ctx.check("required-ness of the instance being used is still honoured after re-registration", none_ok and a.unconvert(None) is None)
 
 
-HARNESSES = dict(convert=h_convert, serialize=h_serialize, parse=h_parse, dispatch=h_dispatch)
+HARNESSES = dict(convert=h_convert, serialize=h_serialize, parse=h_parse, parse_v2=h_parse_v2, dispatch=h_dispatch)
 
 META = dict(
     bounds=dict(convert="per class: the class's document with one element text symbolic (its type's lexical space, or 2 junk characters), converted, an unrelated workload, converted again",
@@ -208,5 +227,6 @@ def instances(tier, seed):
         mk(f"serialize[{n}]", "serialize", dict(cls=n))
     for n in (1, 2):
         mk(f"parse[{n}]", "parse", dict(n=n))
+        mk(f"parse_v2[{n}]", "parse_v2", dict(n=n))
     mk("dispatch", "dispatch", {}, timeout_ms=30000)
     return out
